@@ -74,22 +74,36 @@ var (
 	wPunct  = []string{"!!!", "...", "--", "?", "(", ")", ",", ";", "'"}
 )
 
+func genWord(r *vh.Rng) string {
+	switch p := r.Intn(100); {
+	case p < 50:
+		return vh.Pick(r, wNormal)
+	case p < 65:
+		return vh.Pick(r, wStop)
+	case p < 77:
+		return vh.Pick(r, wMixed)
+	case p < 90:
+		return vh.Pick(r, wUni)
+	}
+	return vh.Pick(r, wPunct)
+}
+
 func genText(r *vh.Rng, maxWords int) string {
 	n := r.Intn(maxWords + 1)
 	ws := make([]string, 0, n)
-	for i := 0; i < n; i++ {
-		switch p := r.Intn(100); {
-		case p < 50:
-			ws = append(ws, vh.Pick(r, wNormal))
-		case p < 65:
-			ws = append(ws, vh.Pick(r, wStop))
-		case p < 77:
-			ws = append(ws, vh.Pick(r, wMixed))
-		case p < 90:
-			ws = append(ws, vh.Pick(r, wUni))
-		default:
-			ws = append(ws, vh.Pick(r, wPunct))
+	if r.Chance(35) {
+		// few distinct words, repeated: term frequencies above one
+		voc := make([]string, 1+r.Intn(3))
+		for i := range voc {
+			voc[i] = genWord(r)
 		}
+		for i := 0; i < n; i++ {
+			ws = append(ws, vh.Pick(r, voc))
+		}
+		return strings.Join(ws, " ")
+	}
+	for i := 0; i < n; i++ {
+		ws = append(ws, genWord(r))
 	}
 	return strings.Join(ws, " ")
 }
@@ -199,7 +213,12 @@ func decorate(r *vh.Rng, ts []string) string {
 	return text
 }
 
-const nRelatedKinds = 12
+
+// kinds 3 and 4 (frequencies move inside an unchanged vocabulary) and 11 (back to an earlier text)
+// need a document with a repeated term / a past, so they are drawn more often
+var relatedKindWeights = []int{0, 1, 2, 3, 3, 3, 3, 4, 4, 4, 5, 6, 7, 8, 9, 10, 11, 11}
+
+func pickRelatedKind(r *vh.Rng) int { return vh.Pick(r, relatedKindWeights) }
 
 // a text derived from what the point holds now (or held before, when it holds no token now)
 func (w *world) relatedText(r *vh.Rng, mp *mpoint, kind int) (string, bool) {
@@ -251,6 +270,9 @@ func (w *world) relatedText(r *vh.Rng, mp *mpoint, kind int) (string, bool) {
 	case 3: // one occurrence moves to another term of the document: length kept, vocabulary kept or shrunk by one
 		if len(terms) >= 2 {
 			i := r.Intn(len(ts))
+			for k := 0; k < 8 && has[ts[i]] < 2; k++ { // rather an occurrence of a repeated term: the vocabulary stays
+				i = r.Intn(len(ts))
+			}
 			for k := 0; k < 20; k++ {
 				if t := vh.Pick(r, terms); t != ts[i] {
 					ts[i] = t
@@ -262,6 +284,9 @@ func (w *world) relatedText(r *vh.Rng, mp *mpoint, kind int) (string, bool) {
 		if len(terms) >= 2 {
 			a := vh.Pick(r, terms)
 			b := vh.Pick(r, terms)
+			for k := 0; k < 8 && has[a] == has[b]; k++ { // rather two terms of different frequency
+				b = vh.Pick(r, terms)
+			}
 			for i, t := range ts {
 				if t == a {
 					ts[i] = b
@@ -941,7 +966,7 @@ func (w *world) update(o *vh.Out, r *vh.Rng, pool []uuid.UUID, allowDup bool) {
 		case p < 52: // rewrite related to the old text (or to an earlier one)
 			u.mode, u.text = uSet, genText(r, 9)
 			if view != nil {
-				if t, ok := w.relatedText(r, view, r.Intn(nRelatedKinds)); ok {
+				if t, ok := w.relatedText(r, view, pickRelatedKind(r)); ok {
 					u.text = t
 				}
 			}
